@@ -18,7 +18,7 @@ DCMD=$(python3 -c "import json,sys;print(json.load(open('$SEED/meta.json')).get(
 echo "seed: $SEED  placement: $PLACE"
 if [ "${SKIP_DEMO:-0}" != 1 ] && [ -n "$PLACE" ] && [ -f "$SEED/demo_test.go.txt" ]; then
   mkdir -p "$(dirname "$PLACE")"; cp "$SEED/demo_test.go.txt" "$PLACE"
-  DCMD=$(echo "$DCMD" | sed -E "s#/tmp/seed-[A-Za-z0-9]+#$WT#g")
+  DCMD=$(echo "$DCMD" | sed -E "s#/tmp/seed[0-9]*-[A-Za-z0-9]+#$WT#g")
   ( eval "$DCMD" ) > $WT.demo-clean.log 2>&1; echo "demo on clean tree: exit $?"
 fi
 git apply "$SEED/patch.diff" || { echo "PATCH DOES NOT APPLY"; exit 2; }
